@@ -16,6 +16,8 @@ RULE = ('single definitions: full product of type{4} x spelling{lower,UPPER} x e
         'pairs: all ordered pairs over (type, expression); zero processors then one added later; two hits, fire_count=1; '
         'non-trivial = expression or label expression present, or >1 processor/definition'
         ' ; the shipped Prometheus processor (registry after two hits: one / two namespaces / default+named / labels / no help-unit x 4 types) and the shipped OpenTelemetry processor with an SDK meter provider (one / no help-unit / labels x 4 types)')
+RULE_ADDED = 'round 4: a metric defined again with one more / one less label, another type, another unit through the real Prometheus registry'
+RULE = RULE + ' ; ' + RULE_ADDED
 ASSUMPTIONS = ['numeric strings and failing label expressions are don\'t-cares', 'unset help/unit may arrive as None or empty text']
 
 PROGRAM = '''
